@@ -606,3 +606,31 @@ Qed.
 Lemma holds3q_noquirks : forall cyc cyct m conds store subj atoms o r,
     holds3_q noquirks cyc cyct m conds store subj atoms o r = holds3 m conds store subj atoms o r.
 Proof. intros. reflexivity. Qed.
+
+Theorem breaking_reason_total_on_shapes : forall m subj o r,
+    (shape_self_ref subj o r \/ shape_alias m subj o r \/ shape_computed_self m subj o r \/ shape_ttu m subj o r
+     -> check_reason m subj o r <> RNone) /\
+    (shape_userset_excl m subj o r -> excl_reason m subj o r = Some RUsersetExcl).
+Proof.
+  intros m subj o r. split.
+  - exact (check_reason_total_on_shapes m subj o r).
+  - exact (excl_reason_total_on_userset_shape m subj o r).
+Qed.
+
+(* ---- concrete models for the non-vacuity examples of Props/C03.v ---- *)
+(* the alias_userset example of TestBreakingChangeReason
+   (doc(2): reader(1): [user]; allowed(2): reader; viewer(3): [user, doc#allowed]; user doc:3#reader) *)
+Definition alias_model : model :=
+  [ {| td_type := 1; td_rels := [] |};
+    {| td_type := 2; td_rels :=
+         [ {| rd_rel := 1; rd_rw := This; rd_restr := [ {| r_type := 1; r_kind := RObj; r_cond := 0 |} ] |};
+           {| rd_rel := 2; rd_rw := Computed 1; rd_restr := [] |};
+           {| rd_rel := 3; rd_rw := This;
+              rd_restr := [ {| r_type := 1; r_kind := RObj; r_cond := 0 |};
+                            {| r_type := 2; r_kind := RSet 2; r_cond := 0 |} ] |} ] |} ].
+(* wildcard_with_exclusion, structural part: doc(2): viewer(1): [user:*] but not blocked(2) *)
+Definition wild_model : model :=
+  [ {| td_type := 1; td_rels := [] |};
+    {| td_type := 2; td_rels :=
+         [ {| rd_rel := 1; rd_rw := Diff This (Computed 2); rd_restr := [ {| r_type := 1; r_kind := RWild; r_cond := 0 |} ] |};
+           {| rd_rel := 2; rd_rw := This; rd_restr := [ {| r_type := 1; r_kind := RObj; r_cond := 0 |} ] |} ] |} ].
